@@ -6,6 +6,7 @@ CONSTANTS
   QueueMax = 2
   MaxTasks = 4
   MaxOps = 9
+  SyncTask = TRUE
   Dev = {}
 INIT Init
 NEXT Next
